@@ -80,7 +80,7 @@ func state(c *core.Ctx, cp *crcPkg) {
 	switch {
 	case len(calls) != 1 || wparam == nil:
 		c.Undecidedf("R2.state", wkey, write.Decl.Pos(), "Write does not call the step function exactly once")
-	case core.FieldOf(info, lhs) == cp.field: // method updating the field in place
+	case core.FieldOf(info, lhs) == cp.field || localCopyOf(info, st, lhs, cp.field): // method updating the field in place (possibly through a local copy)
 		if len(calls[0].Args) == 1 && objOf(info, calls[0].Args[0]) == wparam {
 			c.Okf("R2.state", wkey, calls[0].Pos(), "Write feeds exactly its argument to the step that updates the running field in place (digest independent of chunking)")
 		} else {
@@ -204,6 +204,63 @@ func sumLE(c *core.Ctx, cp *crcPkg, sum *core.Fn, key string) {
 		c.Check("R2.state", key, call.Pos(), order == "LittleEndian", "Sum must encode the CRC little-endian as Redis does (found binary."+order+"): trailers written with it are refused by Redis and by the tool's own checkers")
 		return
 	}
+	// for k := 0; k < 64; k += 8 { in = append(in, byte(s>>k)) }
+	var loopKs []int64
+	loopForm := false
+	core.Inspect(sum.Decl.Body, func(n ast.Node) bool {
+		f, ok := n.(*ast.ForStmt)
+		if !ok || f.Init == nil || f.Cond == nil || f.Post == nil {
+			return true
+		}
+		init, ok1 := f.Init.(*ast.AssignStmt)
+		cond, ok2 := ast.Unparen(f.Cond).(*ast.BinaryExpr)
+		post, ok3 := f.Post.(*ast.AssignStmt)
+		if !ok1 || !ok2 || !ok3 || len(init.Lhs) != 1 || len(init.Rhs) != 1 || len(post.Lhs) != 1 || len(post.Rhs) != 1 {
+			return true
+		}
+		kv := objOf(info, init.Lhs[0])
+		k0, c0 := core.IntConst(info, init.Rhs[0])
+		lim, c1 := core.IntConst(info, cond.Y)
+		stp, c2 := core.IntConst(info, post.Rhs[0])
+		if kv == nil || objOf(info, cond.X) != kv || objOf(info, post.Lhs[0]) != kv || !c0 || !c1 || !c2 || post.Tok != token.ADD_ASSIGN || stp <= 0 || cond.Op != token.LSS && cond.Op != token.LEQ {
+			return true
+		}
+		// the body is exactly one append of byte(value >> k)
+		if len(f.Body.List) != 1 {
+			return true
+		}
+		var app *ast.CallExpr
+		ast.Inspect(f.Body, func(m ast.Node) bool {
+			if call, ok := m.(*ast.CallExpr); ok {
+				if b, isB := core.Callee(info, call).(*types.Builtin); isB && b.Name() == "append" && len(call.Args) == 2 && !call.Ellipsis.IsValid() {
+					app = call
+				}
+			}
+			return true
+		})
+		if app == nil || width(info, ast.Unparen(app.Args[1])) != 8 {
+			return true
+		}
+		sh, isSh := strip(info, app.Args[1]).(*ast.BinaryExpr)
+		if !isSh || sh.Op != token.SHR || !isVal(sh.X) || objOf(info, strip(info, sh.Y)) != kv {
+			return true
+		}
+		loopForm = true
+		for k := k0; (cond.Op == token.LSS && k < lim || cond.Op == token.LEQ && k <= lim) && len(loopKs) < 16; k += stp {
+			loopKs = append(loopKs, k)
+		}
+		return true
+	})
+	if loopForm {
+		le := len(loopKs) == 8
+		for i, k := range loopKs {
+			if k != int64(8*i) {
+				le = false
+			}
+		}
+		c.Check("R2.state", key, sum.Decl.Pos(), le, fmt.Sprintf("Sum must append the CRC bytes least-significant first (shifts 0,8,...,56; the loop produces %v): trailers written with it are refused by Redis and by the tool's own checkers", loopKs))
+		return
+	}
 	// append(in, byte(s>>k)) eight times, k = 0, 8, ..., 56
 	var ks []int64
 	okShape := true
@@ -244,4 +301,48 @@ func orCall(c *ast.CallExpr) *ast.CallExpr {
 		return &ast.CallExpr{Fun: &ast.Ident{Name: "_"}}
 	}
 	return c
+}
+
+// localCopyOf: the step's accumulator is a local that is loaded from the
+// running field before the loop and stored back into it after the loop, on
+// the only path through the function (acc := d.F; for ... { acc = step }; d.F = acc).
+func localCopyOf(info *types.Info, st *core.Fn, lhs ast.Expr, field *types.Var) bool {
+	acc := objOf(info, lhs)
+	if acc == nil || st.Obj.Type().(*types.Signature).Recv() == nil {
+		return false
+	}
+	rhs, other := defsOf(info, st.Decl.Body, acc)
+	loads := 0
+	for _, r := range rhs {
+		if r != nil && core.FieldOf(info, strip(info, r)) == field {
+			loads++
+		}
+	}
+	if other != 0 || len(rhs) != 2 || loads != 1 {
+		return false
+	}
+	// top-level shape: ..., load, loop, store as the last statement; no return anywhere
+	hasRet := false
+	ast.Inspect(st.Decl.Body, func(n ast.Node) bool {
+		if _, ok := n.(*ast.ReturnStmt); ok {
+			hasRet = true
+		}
+		return true
+	})
+	list := st.Decl.Body.List
+	if hasRet || len(list) < 3 {
+		return false
+	}
+	last, ok := list[len(list)-1].(*ast.AssignStmt)
+	if !ok || len(last.Lhs) != 1 || len(last.Rhs) != 1 || last.Tok != token.ASSIGN {
+		return false
+	}
+	if core.FieldOf(info, last.Lhs[0]) != field || objOf(info, strip(info, last.Rhs[0])) != acc {
+		return false
+	}
+	switch list[len(list)-2].(type) {
+	case *ast.ForStmt, *ast.RangeStmt:
+		return true
+	}
+	return false
 }
